@@ -3,7 +3,7 @@
    check_case: the model (Model.v) computes what the implementation did.
    spec_case : what the implementation did satisfies the specification
                (Spec.v, label level), without going through the model. *)
-From Sdns Require Export Common.Base Gen.C18 C18.Model C18.Spec.
+From Sdns Require Export Common.Base Gen.C18 C18.Model C18.Spec C18.Ack.
 From Sdns Require Export C18.Lit.
 Open Scope N_scope.
 
@@ -169,35 +169,35 @@ Definition listed_probe (ck : str) : option str :=
 Definition addn (n : name) (l : list name) : list name := if memn n l then l else l ++ [n].
 Definition deln (n : name) (l : list name) : list name := filter (fun x => negb (name_eqb n x)) l.
 Definition wild_form (ck : str) : bool := has_prefix [42; 46] ck.
-Definition ackl := (list name * list name)%type.
-Definition ack_set (k : str) (L : ackl) : ackl :=
+Definition nackl := (list name * list name)%type.
+Definition nack_set (k : str) (L : nackl) : nackl :=
   let ck := canonical k in
   if wild_form ck then (fst L, addn (name_of (skipn 2 ck)) (snd L))
   else (addn (name_of ck) (fst L), snd L).
-Definition ack_remove (k : str) (L : ackl) : ackl :=
+Definition nack_remove (k : str) (L : nackl) : nackl :=
   let ck := canonical k in
   if memn (name_of ck) (fst L) then (deln (name_of ck) (fst L), snd L)
   else if wild_form ck then (fst L, deln (name_of (skipn 2 ck)) (snd L))
   else L.
-Definition ack_step (a : ackl * ackl) (p : op * N) : ackl * ackl :=
+Definition nack_step (a : nackl * nackl) (p : op * N) : nackl * nackl :=
   let '(lo, hi) := a in
   match p with
-  | (OpSet k, r) => if r =? 0 then a else (ack_set k lo, ack_set k hi)
-  | (OpRemove k, _) => (ack_remove k lo, ack_remove k hi)
+  | (OpSet k, r) => if r =? 0 then a else (nack_set k lo, nack_set k hi)
+  | (OpRemove k, _) => (nack_remove k lo, nack_remove k hi)
   | (OpSetBatch ks, r) =>
       if r =? 0 then a
       else if r =? N.of_nat (Datatypes.length ks)
-           then (fold_left (fun L k => ack_set k L) ks lo, fold_left (fun L k => ack_set k L) ks hi)
-           else (lo, fold_left (fun L k => ack_set k L) ks hi)
+           then (fold_left (fun L k => nack_set k L) ks lo, fold_left (fun L k => nack_set k L) ks hi)
+           else (lo, fold_left (fun L k => nack_set k L) ks hi)
   | (OpRemoveBatch ks, _) =>
-      (fold_left (fun L k => ack_remove k L) ks lo, fold_left (fun L k => ack_remove k L) ks hi)
+      (fold_left (fun L k => nack_remove k L) ks lo, fold_left (fun L k => nack_remove k L) ks hi)
   end.
-Definition ack_lists (m0 wild0 : list str) (ops : list (op * N)) : ackl * ackl :=
-  let L0 := (names_of m0, names_of wild0) in fold_left ack_step ops (L0, L0).
+Definition nack_lists (m0 wild0 : list str) (ops : list (op * N)) : nackl * nackl :=
+  let L0 := (names_of m0, names_of wild0) in fold_left nack_step ops (L0, L0).
 (* [both] = false: only "what is acknowledged is blocked" (histories in which a refresh
    brings names nobody listed through the API) *)
 Definition ack_matched (both : bool) (m0 wild0 w : list str) (ops : list (op * N)) (m1 wild1 : list str) : bool :=
-  let '(lo, hi) := ack_lists m0 wild0 ops in
+  let '(lo, hi) := nack_lists m0 wild0 ops in
   let Wl := names_of w in
   let M1 := names_of m1 in
   let W1 := names_of wild1 in
@@ -242,6 +242,12 @@ Definition temp_is_cut (sn_lines : list str) (limit : nat) (t : str) : bool :=
         | [] => false
         end).
 
+(* the memory the driver dumped lies between the lower and the upper acknowledged list
+   (Ack.ack_lists on the calls and the values the REAL calls returned; Proofs_ack) *)
+Definition ack_bracket (m0 wild0 w : list str) (ops : list (op * N)) (m1 wild1 : list str) : bool :=
+  let '(lo, hi) := Ack.ack_lists ops (mk_bl m0 wild0 w) in
+  subset (bm lo) m1 && subset m1 (bm hi) && subset (bwild lo) wild1 && subset wild1 (bwild hi).
+
 Definition check_case (c : case) : bool :=
   match c with
   | CaseExists m wild w probes =>
@@ -258,7 +264,8 @@ Definition check_case (c : case) : bool :=
       | None, None => true
       | Some _, Some f => file_is_snapshot (bm (s_mem s)) (bwild (s_mem s)) f
       | _, _ => false
-      end
+      end &&
+      ack_bracket m0 wild0 w ops m1 wild1
   | CaseConc m0 wild0 w threads m1 wild1 file =>
       let b := fold_left (fun b o => snd (apply_op o b)) (List.concat threads) (mk_bl m0 wild0 w) in
       same_set (bm b) m1 && same_set (bwild b) wild1 &&
